@@ -3,6 +3,9 @@
   a message is the abstract semantics of the protoreflect call rapidproto.go makes at that point: the
   field-level functions of the SPEC machine (`SpecReflect.*F`, Pulsar/Reflect.lean), lifted to the message
   by `applyFW` (`.put x` = `slots.set j x`, `.putOne x` = `(clearGroup fs g slots).set j (.one x)`).
+  The scalar lemmas come in two forms: for a drawn scalar (`scalarVal E k d`) and — `…_val` — for any value that
+  passes `typecheckSingular` unchanged, which covers the values of a field mapper (`GenOpts.mapper`) that
+  have the shape of their kind and no non-nil flag (`rp_bridge_check_val`).
 -/
 import Pulsar.Rapidproto
 namespace Pulsar.Rapidproto
@@ -103,5 +106,51 @@ theorem rp_bridge_mmut (S : Schema) (E : List Int) {f : FieldDesc} {kk : Kind} {
       if es.any (fun en => kbeqOf kk en.key (scalarVal E kk dk)) then .put (.map false es)
       else .put (.map false (sortEntries kk (es ++ [.entry (scalarVal E kk dk) (emptyMsg S mi)]))) := by
   simp [SpecReflect.mmutF, hs, he, rp_bridge_check, Val.elems]
+
+/-! ### the same for any checked scalar (field-mapper values) -/
+
+/-- a value of the shape of its kind, without the non-nil flag (the abstract form of a blob), passes
+    `typecheckSingular` unchanged: what `MapperTyped` mapper values in abstract form satisfy -/
+theorem rp_bridge_check_val {k : Kind} {v : Val} (hk : scalarOK k v = true) (hb : ∀ b, v ≠ .blob true b) :
+    SpecReflect.checkElem (.scalar k) v = some v := by
+  cases v with
+  | bits n =>
+    simp only [scalarOK, Bool.and_eq_true, Bool.not_eq_true'] at hk
+    simp [SpecReflect.checkElem, hk.1]
+  | blob f b =>
+    simp only [scalarOK] at hk
+    cases f with
+    | true => exact absurd rfl (hb b)
+    | false => simp [SpecReflect.checkElem, hk]
+  | _ => simp [scalarOK] at hk
+
+theorem rp_bridge_set_singular_val {f : FieldDesc} {k : Kind} (v : Val)
+    (hv : SpecReflect.checkElem (.scalar k) v = some v) (hs : f.shape = .singular) (he : f.elem = .scalar k) :
+    SpecReflect.setF f v = .put v := by
+  simp [SpecReflect.setF, hs, he, hv]
+
+theorem rp_bridge_set_oneof_val {f : FieldDesc} {k : Kind} {g : Nat} (v : Val)
+    (hv : SpecReflect.checkElem (.scalar k) v = some v) (hs : f.shape = .oneof g) (he : f.elem = .scalar k) :
+    SpecReflect.setF f v = .putOne v := by
+  simp [SpecReflect.setF, hs, he, hv]
+
+theorem rp_bridge_lapp_val {f : FieldDesc} {p : Bool} {k : Kind} (es : List Val) (v : Val)
+    (hv : SpecReflect.checkElem (.scalar k) v = some v) (hs : f.shape = .repeated p) (he : f.elem = .scalar k) :
+    SpecReflect.lappF f (.list false es) v = .put (.list false (es ++ [v])) := by
+  simp [SpecReflect.lappF, hs, he, hv, Val.elems]
+
+theorem rp_bridge_mset_val {f : FieldDesc} {kk vk : Kind} (es : List Val) (k v : Val)
+    (hk : SpecReflect.checkElem (.scalar kk) k = some k) (hv : SpecReflect.checkElem (.scalar vk) v = some v)
+    (hs : f.shape = .map kk) (he : f.elem = .scalar vk) :
+    SpecReflect.msetF f (.map false es) k v =
+      .put (.map false (sortEntries kk (mapPut (kbeqOf kk) es k v))) := by
+  simp [SpecReflect.msetF, hs, he, hk, hv, Val.elems]
+
+theorem rp_bridge_mmut_val (S : Schema) {f : FieldDesc} {kk : Kind} {mi : Nat} (es : List Val) (k : Val)
+    (hk : SpecReflect.checkElem (.scalar kk) k = some k) (hs : f.shape = .map kk) (he : f.elem = .message mi) :
+    SpecReflect.mmutF S f (.map false es) k =
+      if es.any (fun en => kbeqOf kk en.key k) then .put (.map false es)
+      else .put (.map false (sortEntries kk (es ++ [.entry k (emptyMsg S mi)]))) := by
+  simp [SpecReflect.mmutF, hs, he, hk, Val.elems]
 
 end Pulsar.Rapidproto
